@@ -43,6 +43,15 @@ func c14Ops(w *World, nWriters int) (tasks [][]Op) {
 		ver := map[string]int{}
 		vecs := 0
 		for i := 0; i < n; i++ {
+			if r.Intn(40) == 0 {
+				// a burst larger than the log writer's buffer (1000 entries), then Flush or Sync straight away:
+				// "Flush and Sync cover every write acknowledged before they were invoked", however many
+				key := fmt.Sprintf("w%dk%d", wi, r.Intn(3))
+				nb := pick(r, []int{1100, 1700, 2600})
+				ops = append(ops, Op{K: "burst", Key: key, KK: ver[key] + 1, Depth: nb}, Op{K: pick(r, []string{"flush", "sync"})})
+				ver[key] += nb
+				continue
+			}
 			switch x := r.Intn(10); {
 			case x < 5:
 				key := fmt.Sprintf("w%dk%d", wi, r.Intn(3))
@@ -64,7 +73,7 @@ func c14Ops(w *World, nWriters int) (tasks [][]Op) {
 	// admin task
 	var admin []Op
 	for i := 0; i < 2+r.Intn(5); i++ {
-		admin = append(admin, Op{K: pick(r, []string{"snapshot", "rewrite", "snapshot", "rewrite", "flush", "sync", "maint"}), Idx: c14Index, Task: "vacuum"})
+		admin = append(admin, Op{K: pick(r, []string{"snapshot", "rewrite", "snapshot", "rewrite", "rewrite", "flush", "sync", "maint"}), Idx: c14Index, Task: "vacuum"})
 	}
 	tasks = append(tasks, admin)
 	if r.Intn(3) == 0 {
@@ -155,6 +164,27 @@ func runC14(w *World, tr *Trace) {
 			return
 		}
 		if w.E == nil {
+			return
+		}
+		if op.K == "burst" {
+			w.Probe("burst_larger_than_writer_buffer")
+			for j := 0; j < op.Depth; j++ {
+				v := op.KK + j
+				inv := nextSeq()
+				mu.Lock()
+				if v > issued["kv|"+op.Key] {
+					issued["kv|"+op.Key] = v
+				}
+				mu.Unlock()
+				err, _ := w.execOn(w.E, Op{K: "kvset", Key: op.Key, Val: fmt.Sprintf("v%d", v)})
+				rec := &ackRec{item: "kv|" + op.Key, ver: v, invoke: inv, ret: nextSeq(), acked: err == nil}
+				if err != nil {
+					rec.errText = err.Error()
+				}
+				mu.Lock()
+				acks = append(acks, rec)
+				mu.Unlock()
+			}
 			return
 		}
 		item, ver := verOf(op)
